@@ -115,6 +115,27 @@ def run_chain(j):
             diff = [i for i in range(0, n, 512) if a2[i:i + 512] != r2[i:i + 512]]
             cls = '[undo-keys-in-mixed-block-units] ' if len(units) > 1 else ''
             bad.append(cls + 'after e2undo the device differs from its state before the first recorded run in %d sectors (first at byte %d, last at byte %d)' % (len(diff), diff[0], diff[-1]))
+    # e2undo can itself record to an undo file (-z): undoing the undo must bring back the state before it, also when the first undo file was unfinished
+    if not bad:
+        u2 = os.path.join(w, 'undo2.e2undo')
+        if os.path.exists(u2): os.unlink(u2)
+        with open(p, 'wb') as f: f.write(cur)
+        env = tool_env({'E2FSPROGS_UNDO_DIR': '/nonexistent'})
+        rc, out = run([TOOL['e2undo'], '-z', u2, u, p] if not off else [TOOL['e2undo'], '-o', str(off), '-z', u2, u, p], timeout=60, env=env)
+        mid = open(p, 'rb').read()
+        if rc != 0 or mid[:n] != after[:n]:
+            bad.append('e2undo -z: exit %s, or a different result than e2undo without -z' % rc)
+        elif os.path.exists(u2):
+            rc, out = run([TOOL['e2undo'], u2, p] if not off else [TOOL['e2undo'], '-o', str(off), u2, p], timeout=60, env=env)
+            back = open(p, 'rb').read()
+            if rc != 0:
+                bad.append('undoing the undo (e2undo of the file recorded by e2undo -z) exits %s: %s' % (rc, out[-200:]))
+            elif back[:len(cur)] != cur:
+                diff = [i for i in range(0, len(cur), 512) if back[i:i + 512] != cur[i:i + 512]]
+                try: obs = 1024 << struct.unpack_from('<I', orig, off + 1024 + 0x18)[0]
+                except Exception: obs = 0
+                cls = '[undo-keys-in-mixed-block-units] ' if len(units | {obs}) > 1 else ''
+                bad.append(cls + 'undoing the undo does not bring back the state before it: %d sectors differ (first at byte %d)' % (len(diff), diff[0]))
     return (devname, chain, 'checked', bad, log_)
 
 def flip_job(j):
@@ -216,7 +237,7 @@ def main(tier, only=None):
     ck.add(evaluations=len(jobs) + nflip, distinct_nontrivial=nchk, states=len(jobs), transitions=sum(len(j[1]) for j in jobs) + nflip, traces_validated_against_impl=len(jobs),
            rule='(b) all chains up to depth %d over a menu of %d undo-recording runs (tune2fs x6, resize2fs x3, e2fsck x2, debugfs -w x4, mke2fs x3) appending to one undo file, on %d devices (1k/2k/4k block sizes, device lengths that are not a multiple '
                 'of the undo block size with stamped tails, a filesystem at offset 4096), plus every single run with a simulated unfinished recording; oracle: e2undo -n writes nothing, e2undo exits 0 and the device equals, over its original length, '
-                'its state before the first run recorded in the undo file (unfinished: except s_state/checksum of the primary superblock); (c) single-bit flips of two undo files: e2undo refuses without writing, or restores exactly. '
+                'its state before the first run recorded in the undo file (unfinished: except s_state/checksum of the primary superblock); e2undo -z of that undo file followed by e2undo of the new file brings back the state before the first e2undo; (c) single-bit flips of two undo files: e2undo refuses without writing, or restores exactly. '
                 'distinct_nontrivial = chains in which an undo file was produced and checked' % (2 if quick else 3, len(OPS), len(DEVS)),
            samples=['%s: %s' % (j[0], ' ; '.join(j[1])) for j in (jobs[0], jobs[len(jobs) // 2], jobs[-1])])
     ck.assumptions += ['tool-level exploration only (the undo manager is driven through the tools\' own open/flush/close sequences)',
